@@ -4,6 +4,7 @@ package zzvf
 
 import (
 	"fmt"
+	"runtime"
 	"sync"
 	"sync/atomic"
 	"time"
@@ -19,7 +20,7 @@ var (
 	slots   = map[string]int{}
 )
 
-func Share(collection any) {}
+func Share(collection any)       {}
 func ShareWG(wg *sync.WaitGroup) {}
 func TraceStart()                {}
 
@@ -29,10 +30,21 @@ func EventBound(n int) {}
 // Go starts a harness thread.
 func Go(f func()) {
 	goWG.Add(1)
+	liveGo.Add(1)
 	go func() {
 		defer goWG.Done()
+		defer liveGo.Add(-1)
 		f()
 	}()
+}
+
+var liveGo atomic.Int64
+
+// HelpersDone reports whether every goroutine started by the code under test (not by vf.Go) has
+// finished.  Natively this can only be estimated from the goroutine count: false is returned only when
+// a goroutine beyond the test's own, the live harness threads and the WaitAll watcher certainly exists.
+func HelpersDone() bool {
+	return runtime.NumGoroutine()-QuiesceBase-int(liveGo.Load())-1 <= 0
 }
 
 // WaitAll waits until every harness thread has finished; a thread that never finishes is a deadlock.
